@@ -21,7 +21,9 @@ SPEC = dict(
           "conc: I/O script (<=24 chunks with 0-300 us gaps, optional close, optionally held back until the receiver is parked) "
           "against an application script (<=24 receives with timeouts {0,1,2,10 ms} / mode switches / pauses) on two threads, "
           "variants sync-only, sync/async switching (slow flush callback), small cap (overflow), with Disabled; seeded yields at "
-          "mutex operations (ASan build) / TSan build; the close reason is drawn as in seq. e2e: real TcpEngine, raw peer sends <=12 "
+          "mutex operations (ASan build) / TSan build; the close reason is drawn as in seq; in half of the plans a share of the "
+          "receives uses receiveSyncCancellable (timeouts {1,2,10,50 ms}) and the scripted I/O thread calls cancel() on the "
+          "reader's current token right before / right after a chunk (same polling slice) - a fresh token follows every cancel. e2e: real TcpEngine, raw peer sends <=12 "
           "chunks, ioReadChunk in {5,64,4096,65536}; the session ends by peer FIN right after the last byte, or - after the engine "
           "has read every byte (stats.bytesIn) - by the application's close(sid), by stop(), or by a peer RST. Non-trivial = the history contains a flush, a close or an overflow with a non-empty buffer (seq); "
           "a receive returned data or a flush handed buffered bytes while the I/O thread was running (conc); the full stream was "
